@@ -6,6 +6,10 @@ Part S (synthetic): all PatchTree forests <= N nodes, depth <= 4, distinct sibli
         line by line; the session wrapper equals a table; flattening vendors: cmd_paths == reference flattening.
 Part R (real): PatchTrees produced by the real make_patch over grammar rulebooks (incl. undo_redo, %force_commit).
 Part K (corpus): the shipped (before, after) corpus with the shipped rulebooks: displayed patch == command stream.
+Part J (job): the production caller annet.api.CliDeployerJob.parse_result on every corpus sample, with and without
+        --dont-commit and --acl-safe: the commands it lists for confirmation (cmd_lines) and the commands it queues
+        (deploy_cmds[device]) are those of the pipeline the other parts judge (_diff_and_patch -> cmd_paths ->
+        apply_deploy_rulebook) for the configuration pair the flags select.
 Part D (deploy parameters): generated deploy rulebooks with disjoint sibling rules: (timeout, questions) of every
         Command == those of the unique rule chain matching its path, else the defaults.
 """
@@ -27,6 +31,8 @@ ASSUMPTIONS = [
     "session wrappers are compared with a table hand-transcribed from the vendor CLI conventions documented in common.apply",
     "synthetic trees have pairwise distinct sibling rows and never use the vendor's exit words as rows",
     "deploy rulebooks of part D have sibling rules with pairwise disjoint languages",
+    "part J: annet.deploy.get_deployer() is a harness driver that delegates apply_deploy_rulebook to the real "
+    "annet.deploy.apply_deploy_rulebook and has an empty exit command list; DeployOptions carries a ready Query",
 ]
 BUDGET = {"quick": 60, "thorough": 900}
 
@@ -113,6 +119,7 @@ def bound_text(tier):
 
 def setup():
     env.setup()
+    env.install_harness_deploy_driver()
 
 
 # ---------------------------------------------------------------------------------------------------
@@ -409,6 +416,8 @@ def blocks(tier, seed):
         out.append({"part": "D", "i": i})
     for i in range(8):
         out.append({"part": "K", "i": i})
+    for i in range(8):
+        out.append({"part": "J", "i": i})
     return out
 
 
@@ -456,6 +465,69 @@ def check_corpus(sample, report):
         if not all(any(y == x for y in it) for x in sent):
             report({"kind": "body-differs-from-cmd_paths", "part": "K", "vendor": vendor}, case, "%r vs %r" % (body, sent))
     return len(sent)
+
+
+def check_job(sample, acl_safe, dont_commit, report):
+    """part J: CliDeployerJob.parse_result against the pipeline"""
+    import types
+    from collections import OrderedDict as odict
+    from annet import api, deploy
+    from annet.annlib.netdev.views.hardware import HardwareView
+    from annet.types import OldNewResult
+    hw = HardwareView(sample["model"], None)
+    class Dev(types.SimpleNamespace):
+        __hash__ = object.__hash__
+    dev = Dev(hw=hw, hostname="d", fqdn="d.example", id=1, breed=hw.vendor)
+    case = {"part": "J", "sample": sample["name"], "acl_safe": acl_safe, "dont_commit": dont_commit}
+    a, b = env.to_odict(sample["old"]), env.to_odict(sample["new"])
+    # the safe pair is the reverse direction, so that a job reading the wrong pair is visible
+    from annet.annlib.rbparser.acl import compile_acl_text
+    acl = compile_acl_text("~ %global\n", hw.vendor)      # a generator ACL that owns everything (production always has one)
+    res = OldNewResult(device=dev, old=a, new=b, acl_rules=acl, old_files={}, new_files={}, partial_result=[], entire_result=[],
+                       old_json_fragment_files={}, new_json_fragment_files={}, json_fragment_result={}, implicit_rules=None,
+                       perf={}, acl_safe_rules=acl, safe_old=env.to_odict(sample["new"]), safe_new=env.to_odict(sample["old"]),
+                       safe_new_files={}, safe_new_json_fragment_files={}, filter_acl_rules=None)
+    job = api.DeployerJob.from_device(dev, env.deploy_options(acl_safe=bool(acl_safe), dont_commit=bool(dont_commit)))
+    if type(job).__name__ != "CliDeployerJob":
+        report({"kind": "job-class", "got": type(job).__name__}, case, "")
+        return 0
+    try:
+        job.parse_result(res)
+    except Exception as e:  # noqa
+        # the pipeline must fail the same way
+        try:
+            api._diff_and_patch(dev, *((b, a) if acl_safe else (a, b)), acl, None, False, do_commit=not dont_commit)
+        except Exception as e2:  # noqa
+            if type(e2) is type(e):
+                return 0
+        report({"kind": "job-raises", "exc": type(e).__name__}, case, repr(e)[:300])
+        return 0
+    old, new = (env.to_odict(sample["new"]), env.to_odict(sample["old"])) if acl_safe else (env.to_odict(sample["old"]), env.to_odict(sample["new"]))
+    try:
+        diff, pt = api._diff_and_patch(dev, old, new, acl, None, False, do_commit=not dont_commit)
+    except Exception as e:  # noqa
+        report({"kind": "job-succeeds-where-pipeline-raises", "exc": type(e).__name__, "acl_safe": acl_safe}, case, repr(e)[:300])
+        return 0
+    fmt = env.vendor_obj(hw.vendor).make_formatter(indent="")
+    paths = fmt.cmd_paths(pt)
+    exp_lines = (["= d ", ""] + [p[-1] for p in paths] + [""]) if paths else []
+    if list(job.cmd_lines) != exp_lines:
+        report({"kind": "job-lists-other-commands", "acl_safe": acl_safe}, case, "cmd_lines=%r pipeline=%r" % (job.cmd_lines, exp_lines))
+    got = job.deploy_cmds.get(dev)
+    if not paths:
+        if got is not None or job.has_diff():
+            report({"kind": "job-queues-without-patch"}, case, "deploy_cmds=%r has_diff=%r" % (got, job.has_diff()))
+        return 0
+
+    def sig_of(cl):
+        return [(c.cmd, getattr(c, "level", None), c.timeout, repr(c.questions), getattr(c, "suppress_errors", None)) for c in cl]
+    exp = deploy.apply_deploy_rulebook(hw, paths, do_commit=not dont_commit)
+    if got is None or sig_of(got) != sig_of(exp):
+        report({"kind": "job-queues-other-commands", "dont_commit": dont_commit, "acl_safe": acl_safe}, case,
+               "deploy_cmds=%r pipeline=%r" % (sig_of(got) if got is not None else None, sig_of(exp)))
+    if not job.has_diff():
+        report({"kind": "job-has-diff-flag"}, case, "")
+    return len(list(paths))
 
 
 ALL_FLAGS = [(True, True), (True, False), (False, True), (False, False)]
@@ -519,6 +591,20 @@ def run_block(block, ctx):
                         if n > 1:
                             ctx.nontrivial += 1
                         ctx.outcomes["R:cmds=%s" % (n if n < 4 else "4+")] += 1
+    elif block["part"] == "J":
+        from mc import corpus
+        S = corpus.samples()
+        for si in range(block["i"], len(S), 8):
+            for acl_safe in (0, 1):
+                for dont_commit in (0, 1):
+                    if ctx.expired():
+                        return
+                    n = check_job(S[si], acl_safe, dont_commit, ctx.violation)
+                    ctx.evals += 2
+                    ctx.states += 1
+                    if n > 1:
+                        ctx.nontrivial += 1
+                    ctx.outcomes["J:cmds=%s" % (n if n < 4 else "4+")] += 1
     elif block["part"] == "K":
         from mc import corpus
         S = corpus.samples()
@@ -562,6 +648,9 @@ def replay(case):
         out.append((sig, d))
     if case["part"] == "S":
         check_tree(case["vendor"], case["model"], _tuplify(case["forest"]), [tuple(f) for f in case["flags"]], rep)
+    elif case["part"] == "J":
+        from mc import corpus
+        check_job(next(x for x in corpus.samples() if x["name"] == case["sample"]), case["acl_safe"], case["dont_commit"], rep)
     elif case["part"] == "K":
         from mc import corpus
         check_corpus(next(x for x in corpus.samples() if x["name"] == case["sample"]), rep)
